@@ -60,7 +60,9 @@ fn state(case: &Case, s: usize) -> forge::Built {
     sp.targets_version = v + 20;
     sp.targets = vec![(format!("top{v}.txt"), format!("top {v}").into_bytes())];
     let mut d2 = DelegNode::new("d2", 5, PathSpec::Paths(vec!["d/e/*".into()]));
-    d2.version = v + 40;
+    // an unlisted d2 carries the version that the snapshot lists for targets.json, so that falling
+    // back to another role's entry would be visible
+    d2.version = v + offset(case, 3);
     d2.targets = vec![(format!("d/e/f{v}.txt"), format!("deep {v}").into_bytes())];
     let mut d1 = DelegNode::new("d1", 4, PathSpec::Paths(vec!["d/*".into()]));
     d1.version = v + 30;
@@ -118,6 +120,13 @@ fn vary(bytes: &[u8], v: Variant) -> Vec<u8> {
 
 /// version offsets of snapshot, targets, d1, d2 relative to the timestamp version of the state
 const OFFSET: [u64; 4] = [10, 20, 30, 40];
+fn offset(case: &Case, i: usize) -> u64 {
+    if i == 3 && case.drop_d2_listing {
+        OFFSET[1]
+    } else {
+        OFFSET[i]
+    }
+}
 
 fn file_of(b: &forge::Built, role: &str, consistent: bool, v: u64) -> Vec<u8> {
     let name = match (role, consistent) {
@@ -140,7 +149,7 @@ pub fn prop(case: &Case) -> Outcome {
     let mut served: Vec<Vec<u8>> = Vec::new();
     for (i, r) in roles.iter().enumerate() {
         let st = from[i + 1];
-        let bytes = vary(&file_of(&states[st], r, case.consistent, st as u64 + 1 + OFFSET[i]), case.variant[i]);
+        let bytes = vary(&file_of(&states[st], r, case.consistent, st as u64 + 1 + offset(case, i)), case.variant[i]);
         // whatever URL the client asks for this role, it gets this file
         mem.set_meta(&format!("{r}.json"), Resp::body(bytes.clone()));
         for v in 1..=50 {
@@ -152,7 +161,7 @@ pub fn prop(case: &Case) -> Outcome {
     let t = from[0];
     let orig = |r: &str| {
         let i = roles.iter().position(|x| *x == r).unwrap();
-        file_of(&states[t], r, case.consistent, t as u64 + 1 + OFFSET[i])
+        file_of(&states[t], r, case.consistent, t as u64 + 1 + offset(case, i))
     };
     let pin_ok = |hash: bool, len: bool, o: &[u8], s: &[u8]| (!hash || sha256_hex(o) == sha256_hex(s)) && (!len || s.len() <= o.len());
     let snap_ok = from[1] == t && pin_ok(case.pin_snap_hash, case.pin_snap_len, &orig("snapshot"), &served[0]);
